@@ -93,11 +93,13 @@ PROPS["C06"] = red(["history", "normalise", "reduce"], r"oracle:C06:",
     "(erased diverging arguments, K s Omega, identity wrappers), run under NOR/HNO/CBN/HSP with limit 0 and under the "
     "eager orders with a safe limit")
 PROPS["C07"] = red(["normalise"], r"oracle:C07:",
-    "Theorems: standardisation (Kashima); hence leftmost reduction reaches every existing normal form and the model of "
-    "reduce(NOR, 0) returns it; reduce(CBN, 0) returns whenever a weak head normal form exists. PARTIAL for HNO/HSP: "
-    "soundness (a returned HNO result is the normal form; a returned HSP result is a head normal form) is proved, "
-    "termination of HNO/HSP is decided by the oracle only: planted normal forms must be found by the implementation "
-    "under NOR and HNO with limit 0, CBN/HSP must return (w)hnf; a hang or stack overflow is a violation.",
+    "Theorems: standardisation (Kashima); leftmost reduction reaches every existing normal form, so reduce(NOR, 0) returns it; "
+    "reduce(CBN, 0) returns whenever a weak head normal form exists; head reduction length never grows along a reduction "
+    "(head steps commute with parallel reduction), hence the head-spine strategy terminates whenever a head normal form "
+    "exists (reduce(HSP, 0) returns) and hybrid normal order reaches every existing normal form (reduce(HNO, 0) returns it). "
+    "Oracle: planted normal forms (terms generated backwards by beta-expansion with diverging subterms in erased positions) "
+    "must be found by the implementation under NOR and HNO; CBN/HSP must return (weak) head normal forms on terms whose head "
+    "variable has diverging arguments; a hang or stack overflow is a violation.",
     "; normalise suite as described under C06")
 
 PARSE_TB = [KERNEL, NOAX, TIE_B + "; modelled: src/parser.rs (tokenize_dbr, tokenize_cla, convert_classic_tokens, get_ast, "
